@@ -105,7 +105,10 @@ def check(run):
         run.ob("R14.2", "%s::write:loop-until-input-consumed" % tag, ok, wr, wr["line"],
                "loops until the compressor has consumed the whole chunk" if ok else why)
         # input pointers set from the arguments
-        asg = {lp: rhs for lp, rhs, node in consumption.assignment_targets(ir.stmts(wr["body"])) if lp}
+        # (the stores that reach the loop: what happens to the pointers after the chunk is consumed is not the window)
+        order_ = {id(x): i for i, x in enumerate(ir.walk(wr["body"]))}
+        loop_at = order_[id(loops[0])] if loops else len(order_)
+        asg = {lp: rhs for lp, rhs, node in consumption.assignment_targets(ir.stmts(wr["body"])) if lp and order_.get(id(node), 0) < loop_at}
         okin = path(unwrap_all_casts(asg.get(("this", sp["stream"], "next_in")))) == ("p:%s" % wr["params"][0]["n"],) and \
             path(unwrap_all_casts(asg.get(("this", sp["stream"], "avail_in")))) == ("p:%s" % wr["params"][1]["n"],)
         run.ob("R14.2", "%s::write:input-window" % tag, okin, wr, wr["line"], "next_in/avail_in are the caller's chunk" if okin else "next_in/avail_in are not set from (p, size)")
